@@ -132,10 +132,16 @@ def FuncSt.genCode (s : FuncSt) (pub : W64) : FuncSt :=
   | some c => s.redirectTo .code c
   | none => { (s.redirectTo .code pub) with machineCode := some pub }
 
-/-- `generate_func_and_redirect (ctx, f, FALSE)` for a function without machine code: bb stubs are
-created, the thunk is redirected to the bb thunk of the first bb version; no machine code yet. -/
+/-- `generate_func_and_redirect (ctx, f, FALSE)`.  Without machine code: bb stubs are created, the
+thunk is redirected to the bb thunk of the first bb version; no machine code yet.  When
+whole-function code already exists (the function was generated before and is linked again under
+the lazy-bb interface) `generate_func_code` has redirected the thunk to that code and nothing
+else happens (fix C03:relink-bb-after-gen; before it the bb stubs of a function that has none
+were dereferenced). -/
 def FuncSt.genBB (s : FuncSt) (pub : W64) : FuncSt :=
-  { (s.redirectTo .bbThunk pub) with bbData := true }
+  match s.machineCode with
+  | some c => s.redirectTo .code c
+  | none => { (s.redirectTo .bbThunk pub) with bbData := true }
 
 /-- `MIR_set_<i>_interface (ctx, f)` -/
 def FuncSt.setIface (s : FuncSt) (i : Iface) (pub : W64) : FuncSt :=
@@ -192,7 +198,8 @@ a module whose functions have bb stubs or were interpreted is not loaded again; 
 function whose `data` fields are in use (`gen_assert (func_item->data == NULL)` in `generate_func_code`):
 by bb stubs, or by the interpreter — `finish_func_interpretation` is reachable only through
 `MIR_link`, so a function that was already interpreted cannot be handed to the generator without
-re-loading it; the bb generator is not applied to a function that already has machine code. -/
+re-loading it.  (A function that already has machine code may be linked under the lazy-bb interface:
+its first call leads to the existing code.) -/
 def admissible (s : State) : Event → Bool
   | .load fs _ => fs.all fun f => !(s f).bbData && !(s f).interpData   -- `assert (item->data == NULL)` in `MIR_link`
   | .link _ _ => true
@@ -203,11 +210,11 @@ def admissible (s : State) : Event → Bool
   | .firstCall f _ =>
     (s f).addr.isSome && !(s f).pending && (match (s f).kind with
       | .lazyWrapper => !(s f).bbData && !(s f).interpData
-      | .bbWrapper => (s f).machineCode.isNone && !(s f).bbData && !(s f).interpData
+      | .bbWrapper => !(s f).bbData && !(s f).interpData
       | .undefined => false
       | _ => true)
   | .gen f _ => (s f).addr.isSome && !(s f).pending && !(s f).bbData && !(s f).interpData
   | .bbgen f _ =>
-    (s f).addr.isSome && !(s f).pending && (s f).machineCode.isNone && !(s f).bbData && !(s f).interpData
+    (s f).addr.isSome && !(s f).pending && !(s f).bbData && !(s f).interpData
 
 end MirVerif.Thunk
